@@ -1015,6 +1015,56 @@ def r44_name_tail_call(text, base_line=0):
     return pat.sub(lambda m: "%s{ let __r4 = %s.flatten(); __r4 }" % (m.group(1), m.group(2)), text), log
 
 
+def r45_min_method(text, base_line=0):
+    """R45: `(E).min(F)` on `usize` -> `usize_min(E, F)` (Verus cannot specify the provided trait method `Ord::min`)"""
+    log = []
+    pos = 0
+    while True:
+        k = text.find(").min(", pos)
+        if k < 0:
+            return text, log
+        # find the `(` matching the `)` at k
+        depth, j = 0, k
+        while j >= 0:
+            if text[j] == ")":
+                depth += 1
+            elif text[j] == "(":
+                depth -= 1
+                if depth == 0:
+                    break
+            j -= 1
+        if j < 0 or (j > 0 and (text[j - 1].isalnum() or text[j - 1] == "_")):
+            pos = k + 1
+            continue
+        close = _balanced(text, k + 5)
+        e, f = text[j + 1:k], text[k + 6:close - 1]
+        new = "usize_min(%s, %s)" % (e, f)
+        log.append("R45 line %d: `(%s).min(%s)` -> `%s`" % (base_line + text.count("\n", 0, j), " ".join(e.split())[:60], " ".join(f.split()), " ".join(new.split())[:90]))
+        text = text[:j] + new + text[close:]
+        pos = j + 5
+
+
+def r46_f32_as_usize(text, base_line=0):
+    """R46: `CALL(..) as usize` where the call returns f32 (here: `self.generate(..)`) -> opaque `f32_as_usize(CALL(..))` (Rust's saturating float-to-int cast)"""
+    log = []
+    pat = re.compile(r"(self\.generate\()")
+    pos = 0
+    while True:
+        m = pat.search(text, pos)
+        if not m:
+            return text, log
+        close = _balanced(text, m.end() - 1)
+        tail = re.match(r"\s+as\s+usize\b", text[close:])
+        if not tail:
+            pos = m.end()
+            continue
+        call = text[m.start():close]
+        new = "f32_as_usize(%s)" % call
+        log.append("R46 line %d: `%s as usize` -> `%s`" % (base_line + text.count("\n", 0, m.start()), call, new))
+        text = text[:m.start()] + new + text[close + tail.end():]
+        pos = m.start() + 14
+
+
 def r21_to_owned(text, base_line=0):
     """R21: `.to_owned()` -> `.clone()` (identical for a `Clone` type; vstd specifies `Clone`)"""
     log = []
@@ -1032,9 +1082,9 @@ REWRITES = {
     "R1": r1_compound_assign, "R2": r2_unary_minus, "R3": r3_scale_call, "R6": r6_for_with_continue,
     "R7": r7_isqrt, "R8": r8_step_by, "R9": r9_consts, "R10": r10_tail_continue,
     "R12": r12_enumerate, "R15": r15_iter, "R16": r16_map_index, "R17": r17_for_in_ref_vec, "R18": r18_assert_eq_shape,
-    "R19": r19_last_unwrap, "R20": r20_range_enumerate, "R21": r21_to_owned, "R22": r22_map_collect, "R23": r23_slice_iter, "R24": r24_name_wildcard_loop, "R25": r25_par_map_collect, "R26": r26_zip_iter_mut, "R27": r27_sum_f32, "R28": r28_as_f32, "R29": r29_consuming_for, "R30": r30_rev_take_collect, "R31": r31_zip_map_sum, "R32": r32_chunked_zip_flat_map, "R33": r33_unzip, "R34": r34_chunked_flat_map, "R35": r35_chunk_const, "R36": r36_extend, "R37": r37_for_in_ref, "R38": r38_flat_map3, "R39": r39_unflatten, "R42": r42_assert_eq, "R43": r43_mut_self, "R44": r44_name_tail_call, "R40": r40_for_mut_ref, "R41": r41_iter_mut_for_each, "R13": r13_panic_allowed, "R14": r14_panic_forbidden,
+    "R19": r19_last_unwrap, "R20": r20_range_enumerate, "R21": r21_to_owned, "R22": r22_map_collect, "R23": r23_slice_iter, "R24": r24_name_wildcard_loop, "R25": r25_par_map_collect, "R26": r26_zip_iter_mut, "R27": r27_sum_f32, "R28": r28_as_f32, "R29": r29_consuming_for, "R30": r30_rev_take_collect, "R31": r31_zip_map_sum, "R32": r32_chunked_zip_flat_map, "R33": r33_unzip, "R34": r34_chunked_flat_map, "R35": r35_chunk_const, "R36": r36_extend, "R37": r37_for_in_ref, "R38": r38_flat_map3, "R39": r39_unflatten, "R42": r42_assert_eq, "R43": r43_mut_self, "R44": r44_name_tail_call, "R45": r45_min_method, "R46": r46_f32_as_usize, "R40": r40_for_mut_ref, "R41": r41_iter_mut_for_each, "R13": r13_panic_allowed, "R14": r14_panic_forbidden,
 }
-ORDER = ["R42", "R43", "R44", "R18", "R13", "R14", "R16", "R40", "R41", "R38", "R39", "R36", "R37", "R31", "R32", "R34", "R35", "R33", "R25", "R26", "R29", "R30", "R27", "R28", "R20", "R22", "R23", "R24", "R12", "R15", "R17", "R19", "R21", "R10", "R8", "R6", "R9", "R7", "R3", "R1", "R2"]
+ORDER = ["R42", "R43", "R44", "R28", "R46", "R45", "R18", "R13", "R14", "R16", "R40", "R41", "R38", "R39", "R36", "R37", "R31", "R32", "R34", "R35", "R33", "R25", "R26", "R29", "R30", "R27", "R20", "R22", "R23", "R24", "R12", "R15", "R17", "R19", "R21", "R10", "R8", "R6", "R9", "R7", "R3", "R1", "R2"]
 
 
 def apply_rewrites(text, names, base_line):
